@@ -267,7 +267,7 @@ def _method_chain(node, f):
     return ast.unparse(node), list(reversed(chain))
 
 
-def linesplit(repo):
+def linesplit(repo, side="both"):
     """Line numbers are assigned by the tokenizer and interpreted by the error printer; both must cut the source
     text into lines in the same way, or positions point at the wrong text for inputs with unusual terminators."""
     res = RuleResult("R-LINESPLIT")
@@ -294,14 +294,26 @@ def linesplit(repo):
                 shown.append((g, n, _method_chain(n, g.node)[1]))
     if not shown:
         raise AnalysisError("error.py: the place where source text is cut into lines for display was not found")
-    for g, n, chain in shown:
+    canonical = [("splitlines", [])]
+    if side in ("both", "tokenizer"):
         res.instances += 1
-        if chain != tok_chain:
-            res.add(f"{TOK}|{f.name}|linesplit", f"{f.name} cuts the source into lines with {tok_chain} but {g.qualname} "
-                    f"(error display) with {chain}: for line terminators the two treat differently (form feed, lone CR, "
-                    "U+2028, ...) tokens get line numbers that point at other text", TOK, loops[0].lineno, f.name)
+        if tok_chain != canonical:
+            res.add(f"{TOK}|{f.name}|linesplit", f"{f.name} cuts the source into lines with {tok_chain}, not with str.splitlines(): "
+                    "line terminators other than the ones it knows (form feed, lone CR, U+2028, ...) no longer end a line, so "
+                    "two source lines become one token line and positions no longer address the text they name",
+                    TOK, loops[0].lineno, f.name)
         else:
-            res.samples.append(f"{f.name} and {g.qualname}: {chain}")
+            res.samples.append(f"{f.name}: {tok_chain}")
+    if side in ("both", "printer"):
+        for g, n, chain in shown:
+            res.instances += 1
+            if chain != tok_chain:
+                res.add(f"{er.rel}|{g.qualname}|linesplit", f"{g.qualname} (error display) cuts the source into lines with {chain} but "
+                        f"{f.name} numbers lines with {tok_chain}: for line terminators the two treat differently (form feed, "
+                        "lone CR, U+2028, ...) a reported line number addresses other text or no line at all (IndexError)",
+                        er.rel, n.lineno, g.qualname)
+            else:
+                res.samples.append(f"{f.name} and {g.qualname}: {chain}")
     res.analysed = [TOK, er.rel]
     return res
 
@@ -439,4 +451,62 @@ def indent(repo):
             res.add(f"{TOK}|{f.name}|dedent-error", "an indentation that matches no open level is no longer an error", TOK, ded.lineno, f.name)
     res.samples = [f"{f.fq}: {total}"]
     res.analysed = [TOK]
+    return res
+
+
+# ---------------------------------------------------------------------------------------------------------
+LANGREF = "doc/language-reference.md"
+_NAME_CLASSES = {"CamelCase": "CamelWord", "snake_case": "SnakeWord", "SHOUTY_CASE": "ShoutyWord"}
+
+
+def nameregex(repo):
+    """R-NAMEREGEX (C10): the language reference states a regular expression for each of the three name classes
+    (type names, field/module names, enum value names).  The tokenizer's pattern for the corresponding symbol must
+    denote the same language.  Equal text is accepted at once; otherwise the two expressions are compared on every
+    string up to length 6 over one representative of each character class they distinguish ({A, Z, a, z, 0, 9, _}),
+    which decides equality for patterns built from those classes with bounded look-behind of this size (the three
+    documented ones need length 3).  doc/grammar.md is generated from the tokenizer and cannot serve as the oracle."""
+    res = RuleResult("R-NAMEREGEX")
+    lits, regs = G.tokenizer_tables(repo)
+    by_symbol = {}
+    for p, s, _ in regs:
+        by_symbol.setdefault(s, []).append(p)
+    text = repo.read(LANGREF)
+    m = re.search(r"^### Names\s*$(.*?)^### ", text, re.S | re.M)
+    if not m:
+        raise AnalysisError("language-reference.md: section `### Names` not found")
+    paras = re.split(r"\n\s*\n", m.group(1))
+    documented = {}
+    for para in paras:
+        classes = [c for c in _NAME_CLASSES if f"`{c}`" in para]
+        rx = [t for t in re.findall(r"`([^`]+)`", para.replace("\n", " ")) if "[" in t]
+        if len(classes) == 1 and rx:
+            documented[_NAME_CLASSES[classes[0]]] = rx[-1]
+    if set(documented) != set(_NAME_CLASSES.values()):
+        raise AnalysisError(f"language-reference.md: documented name regexes found only for {sorted(documented)}")
+    import itertools
+    alphabet = "AZaz09_"
+    probes = ["".join(t) for n in range(0, 7) for t in itertools.product(alphabet, repeat=n)]
+    for sym, doc_rx in sorted(documented.items()):
+        res.instances += 1
+        pats = by_symbol.get(sym, [])
+        if len(pats) != 1:
+            res.add(f"{TOK}|{sym}|count", f"the tokenizer has {len(pats)} patterns for {sym}; the language reference documents one", TOK)
+            continue
+        if pats[0] == doc_rx:
+            res.samples.append(f"{sym}: {doc_rx}")
+            continue
+        try:
+            a, b = re.compile(pats[0]), re.compile(doc_rx)
+        except re.error as e:
+            raise AnalysisError(f"{sym}: {e}")
+        diff = next((s for s in probes if bool(a.fullmatch(s)) != bool(b.fullmatch(s))), None)
+        if diff is not None:
+            who = "accepts" if a.fullmatch(diff) else "rejects"
+            res.add(f"{TOK}|{sym}|language", f"the tokenizer's {sym} pattern `{pats[0]}` {who} `{diff}`, the language reference's "
+                    f"`{doc_rx}` does the opposite: names of that shape are classified differently from what is documented "
+                    "(a documented enum value / type / field name becomes a BadWord, or the other way round)", TOK)
+        else:
+            res.samples.append(f"{sym}: `{pats[0]}` == `{doc_rx}` on all strings up to length 6")
+    res.analysed = [TOK, LANGREF]
     return res
